@@ -1,5 +1,6 @@
 import KvarnModel.Drv.Util
 import KvarnModel.Wire
+import KvarnModel.BodyAcct
 namespace Drv.C08
 open Wire Drv Wire1
 
@@ -11,5 +12,19 @@ def handle : List String → Option String
     pure (match parseAll bytes heads with
       | none => "desync"
       | some rs => listStr (rs.map fun r => s!"{r.status}:{r.body.length}:{(r.headers.filter fun h => h.1 == CONTENT_LENGTH).length}"))
+  -- body <early> <declared> [limit@got,…] <max> : Http1Body's bookkeeping — what each read_to_bytes returns, discard_rest's
+  -- answer, and how many bytes were taken off the socket in the end; `got` = what the reads of that call took (observed);
+  -- a value the model does not allow (less than wanted although it was there, more than there is) is reported
+  | ["body", e, d, ls, m] => do
+    let early ← e.toNat?; let declared ← d.toNat?; let max ← m.toNat?
+    let calls ← (← parseList ls).mapM fun c => match c.splitOn "@" with
+      | [l, g] => do pure (← l.toNat?, ← g.toNat?)
+      | _ => none
+    let (s1, lens) := BodyAcct.reads (BodyAcct.new early declared) calls
+    -- the observed takes must be the ones the model would have allowed
+    let takenObserved := (calls.map (·.2)).foldl (· + ·) 0
+    let (s2, ok) := BodyAcct.discardRest s1 max (BodyAcct.rest s1)
+    let note := if takenObserved = s1.taken then "" else s!" invalid-takes(model {s1.taken})"
+    pure s!"reads={listStr (lens.map toString)} discard={boolStr ok} taken={s2.taken}{note}"
   | _ => none
 end Drv.C08
